@@ -127,12 +127,12 @@ class BuildError(Exception):
         self.out = out
 
 
-CHECK_RE = re.compile(r"^Check (\d+): (.+)\n\t - Status: (\S+)\n\t - Description: \"(.*)\"\n\t - Location: (.*)$", re.M)
+CHECK_RE = re.compile(r"^Check (\d+): (.+)\n\t - Status: (\S+)\n\t - Description: \"(.*)\"(?:\n\t - Location: (.*))?$", re.M)
 
 
 def parse_result(text):
     """-> dict(status, checks=[(id,status,desc,loc)], time)"""
-    checks = [(m.group(2), m.group(3), m.group(4).strip('"'), m.group(5)) for m in CHECK_RE.finditer(text)]
+    checks = [(m.group(2), m.group(3), m.group(4).strip('"'), m.group(5) or "") for m in CHECK_RE.finditer(text)]
     tm = re.search(r"Verification Time: ([0-9.]+)s", text)
     fails = [m.group(0) for m in CHECK_RE.finditer(text) if m.group(3) == "FAILURE"]
     i = text.find("SUMMARY:")
@@ -226,8 +226,12 @@ def run_group(sc, feat, checks, obs, jobs):
     by_to = {}
     for ob in obs:
         # few time-out classes, so that one cargo-kani invocation serves many harnesses
-        cls = next((b for b in (300, 900, 2400, 7200) if ob["timeout"] <= b), 14400)
-        by_to.setdefault(cls, []).append(ob)
+        by_to.setdefault(0, []).append(ob)
+    if by_to:
+        # one invocation per (features, check flags): the group's largest time-out applies to every harness
+        by_to = {max(ob["timeout"] for ob in by_to[0]): by_to[0]}
+    for _ in ():
+        pass
     outdir = os.path.join(sc.dir, "kt-" + feat, "result_output_dir")
     for to, group in sorted(by_to.items()):
         names = [ob["name"] for ob in group]
